@@ -127,6 +127,8 @@ func Run(w *sim.World, opt Options) *Outcome {
 	// adaptive workload: after a leader change following an acknowledged Put, the next
 	// request is usually a Get of that key (a lost acknowledged write becomes visible)
 	ackedPutKey, electionsAtAck := "", 0
+	opsSinceAck, deposeAfterOps := 0, 0
+	patientReads := false // patient mode, between the acknowledged Put and the depose: only Gets are issued
 	// final reads: once the adversaries have finished (or the step budget is used up) every
 	// fault stops, pending requests complete, and one Get per key is issued: an acknowledged
 	// write that was lost shows in the history even if no client happened to ask again
@@ -152,7 +154,7 @@ func Run(w *sim.World, opt Options) *Outcome {
 			return tla.MakeRecord([]tla.RecordField{{Key: S("type"), Value: S("get")}, {Key: S("key"), Value: S(key)}}), true
 		}
 		key := keys[w.Choose(sim.KOp, len(keys))]
-		if w.Choose(sim.KOp, 2) == 0 {
+		if !(patientReads && ackedPutKey != "" && elections == electionsAtAck) && w.Choose(sim.KOp, 2) == 0 {
 			v := fmt.Sprintf("v%d", uniq)
 			uniq++
 			return tla.MakeRecord([]tla.RecordField{{Key: S("type"), Value: S("put")}, {Key: S("key"), Value: S(key)}, {Key: S("value"), Value: S(v)}}), true
@@ -375,6 +377,9 @@ func Run(w *sim.World, opt Options) *Outcome {
 					out.History = append(out.History, *op)
 					if op.Put {
 						ackedPutKey, electionsAtAck = op.Key, elections
+						opsSinceAck = 0
+					} else if ackedPutKey != "" {
+						opsSinceAck++
 					}
 					pending[cl] = nil
 				}
@@ -547,7 +552,11 @@ func Run(w *sim.World, opt Options) *Outcome {
 	}
 	// how long after the acknowledgement the leader is cut off: at once (followers have not
 	// heard of the commit yet), a little later, or when they usually have
-	deposeWait := []int{3, 25, 80}[w.Choose(sim.KCfg, 3)]
+	deposeWait := []int{3, 40, 300}[w.Choose(sim.KCfg, 3)]
+	// ... and after how many further (read) operations: followers learn commit indices past the
+	// Put only from later traffic
+	deposeAfterOps = []int{0, 1, 3}[w.Choose(sim.KCfg, 3)]
+	patientReads = patient
 	if patient {
 		max += 1500
 		out.Probes["depose_mode"]++
@@ -616,7 +625,7 @@ func Run(w *sim.World, opt Options) *Outcome {
 		}
 		if patient {
 			switch {
-			case !deposing && ackedPutKey != "" && elections == electionsAtAck && deposed < 2:
+			case !deposing && ackedPutKey != "" && elections == electionsAtAck && deposed < 2 && opsSinceAck >= deposeAfterOps:
 				if ackStep < 0 {
 					ackStep = out.Steps
 				}
@@ -719,7 +728,7 @@ func Run(w *sim.World, opt Options) *Outcome {
 				ws[i] = 60 // the final reads are what is left to do
 			} else if hunt && hs >= 2 {
 				ws[i] = 0 // clients are slow while the old leader is back: no entry of its new term yet
-			} else if patient && (deposing || (ackedPutKey != "" && elections == electionsAtAck && deposed < 2)) {
+			} else if patient && (deposing || (ackedPutKey != "" && elections == electionsAtAck && deposed < 2 && opsSinceAck >= deposeAfterOps)) {
 				ws[i] = 0 // patient clients: after an acknowledged Put they wait for the leader change before asking again
 			}
 			total += ws[i]
